@@ -57,6 +57,11 @@ def DICT(value=None, units=None):
     return {'t': 'dict', 'value': value, 'units': units}
 
 
+def SHARED(key, value=None, units=None):
+    """A {'value': .., 'units': ..} dict; every use of the same key hands the API the very same dict object."""
+    return {'t': 'dict', 'value': value, 'units': units, 'share': key}
+
+
 def NOJ(v):
     v = dict(v)
     v['nojudge'] = True
